@@ -373,8 +373,11 @@ func init() {
 					}
 					mid := g.tb.Tx(u, sel)
 					second := g.tb.Tx(rep, &oracletypes.MsgSubmitValue{Creator: rep.Bech(), QueryData: g.spots[5], Value: Uint256Value(big.NewInt(int64(6200 + round)))})
+					// ... and then the FIRST query again: the later report replaces the earlier one of this block, and the
+					// stake recorded for it has to be the stake selected now (after C09-j)
+					third := g.tb.Tx(rep, &oracletypes.MsgSubmitValue{Creator: rep.Bech(), QueryData: g.spots[4], Value: Uint256Value(big.NewInt(int64(6300 + round)))})
 					var out [][]byte
-					for _, t := range [][]byte{first, mid, second} {
+					for _, t := range [][]byte{first, mid, second, third} {
 						if t != nil {
 							out = append(out, t)
 						}
